@@ -657,15 +657,25 @@ def rule_r4(prog, res):
     meta = prog.cls('spyne.service:ServiceBaseMeta')
     g = meta.methods.get('__get_base_event_handlers')
     minit = meta.methods.get('__init__')
-    if g is None or minit is None:
-        raise AnalysisError('ServiceBaseMeta.__get_base_event_handlers',
-                            'not found')
+    if minit is None:
+        raise AnalysisError('ServiceBaseMeta.__init__', 'not found')
+    inlined = g is None
+    if inlined:
+        # the collector may live inside __init__ itself
+        g = minit
     # the metaclass hands EventManager the result of the collector
     calls = [c for c in calls_in(minit.node) if call_name(c) ==
              'EventManager']
     ok = any(len(c.args) >= 2 and isinstance(c.args[1], ast.Call) and
              call_name(c.args[1]) == '__get_base_event_handlers'
              for c in calls)
+    if inlined:
+        local_dicts = {n_.targets[0].id for n_ in walk_no_defs(minit.node)
+                       if isinstance(n_, ast.Assign) and isinstance(
+                           n_.targets[0], ast.Name) and isinstance(
+                           n_.value, ast.Dict) and not n_.value.keys}
+        ok = any(len(c.args) >= 2 and isinstance(c.args[1], ast.Name) and
+                 c.args[1].id in local_dicts for c in calls)
     res.ob('R4', minit.where, 'ServiceBaseMeta.__init__ seeds the manager '
            'from __get_base_event_handlers(bases)', 'ok' if ok else
            'VIOLATED')
